@@ -1046,8 +1046,6 @@ func c15StoneScale(p *Prog, r *Report) {
 	}
 }
 
-
-
 // dimensionless fractions that may multiply a capacity value without changing its unit
 var c15Dimless = map[string]bool{"GlobalVarsMain.STEIN": true}
 
